@@ -9,11 +9,11 @@ unb = lambda s: base64.b64decode(s)
 def variants(src, contexts, imports, layouts):
     out = []
     for c in contexts:
-        try: s = gen.ctx(src, c)
+        try: s = gen.twice(src) if c == "twice" else gen.ctx(src, c)
         except Exception: s = None
         if s is None: continue
         for imp in imports:
-            fn = {"plain": lambda x: x, "alias": gen.alias_import, "from": gen.from_import}[imp]
+            fn = {"plain": lambda x: x, "alias": gen.alias_import, "from": gen.from_import, "second-use": gen.second_use}[imp]
             try: s2 = fn(s)
             except Exception: s2 = None
             if s2 is None: continue
@@ -32,14 +32,19 @@ def plan(tier, seed):
     by = collections.defaultdict(list)
     for r in recs: by[r["codemod"]].append(r)
     if tier == "quick":
-        per, ctxs, imps, lays = 6, ("module", "def", "nested"), ("plain", "alias"), ("lf", "crlf", "bom", "exploded", "trailing-comma", "semicolon")
+        per, ctxs, imps, lays = 6, ("module", "def", "nested", "twice"), ("plain", "alias", "second-use"), ("lf", "crlf", "bom", "exploded", "trailing-comma", "semicolon", "keywords-reversed")
     else:
-        per, ctxs, imps, lays = 10**6, ("module", "def", "async", "method", "nested", "prelude"), ("plain", "alias", "from"), ("lf", "crlf", "nonl", "bom", "tabs", "unicode", "exploded", "exploded-comments", "trailing-comma", "semicolon", "backslash", "formfeed")
+        per, ctxs, imps, lays = 10**6, ("module", "def", "async", "method", "nested", "prelude", "twice"), ("plain", "alias", "from", "second-use"), ("lf", "crlf", "nonl", "bom", "tabs", "unicode", "exploded", "exploded-comments", "trailing-comma", "semicolon", "backslash", "formfeed", "keywords-reversed", "hanging")
     jobs = []
     for cid, rs in sorted(by.items()):
         rs = sorted(rs, key=lambda r: hashlib.sha1(r["input"].encode()).hexdigest())
         pick = rs if len(rs) <= per else rs[:per // 2] + rnd.sample(rs[per // 2:], per - per // 2)
         seen = {}
+        for r in rs:
+            # every seed in its base form; a function-local decoy import of what the codemod adds at module level (hint taken from the seed's expected imports, never an oracle)
+            seen.setdefault(hashlib.sha1(r["input"].encode()).hexdigest()[:12], (("module", "plain", "lf"), r["input"].encode()))
+            dec = gen.local_decoy(r["input"], gen.added_imports(r["input"], r["expected"]))
+            if dec is not None: seen.setdefault(hashlib.sha1(dec.encode()).hexdigest()[:12], (("local-decoy-import", "plain", "lf"), dec.encode()))
         for r in pick:
             for label, data in variants(r["input"], ctxs, imps, lays if tier != "quick" else lays):
                 # layouts only on plain/module+def to bound the grid
